@@ -85,11 +85,16 @@ def main():
         if a.keep:
             dst = os.path.join(HERE, "seeded", a.name)
             os.makedirs(dst, exist_ok=True)
-            shutil.copy(patch, os.path.join(dst, "patch.diff"))
-            shutil.copy(demo, os.path.join(dst, "demo.py"))
+            same = os.path.realpath(a.seed_dir) == os.path.realpath(dst)
+            if not same:
+                shutil.copy(patch, os.path.join(dst, "patch.diff"))
+                shutil.copy(demo, os.path.join(dst, "demo.py"))
             notes = os.path.join(a.seed_dir, "notes.md")
-            if os.path.exists(notes):
+            if os.path.exists(notes) and not same:
                 shutil.copy(notes, os.path.join(dst, "notes.md"))
+            for extra in ("patch.orig.diff",):
+                if os.path.exists(os.path.join(a.seed_dir, extra)) and not same:
+                    shutil.copy(os.path.join(a.seed_dir, extra), os.path.join(dst, extra))
             old = {}
             mp = os.path.join(dst, "meta.json")
             if os.path.exists(mp):
